@@ -2040,10 +2040,9 @@ fn process_file_context<T: Read + Write>(
             //info!(log, "stream #{} did send {:?}", stream.id, stream.msgs_sent);
         }
         // for queries (not streams), check whether query is done:
-        if ((
-            ((!got_new_msgs && !(fc.collect_mode==CollectMode::OnePassStreams))
-                ||(parser_thread_finished && fc.collect_mode == CollectMode::OnePassStreams)) 
-            && (stream.all_msgs_last_processed_len >= all_msgs_len)) // no new msgs and all processed
+        // (a round without new msgs does not mean that there wont be any more msgs: the parser thread
+        // might just be slower than our polling, e.g. directly after the open)
+        if ((parser_thread_finished && (stream.all_msgs_last_processed_len >= all_msgs_len)) // no more msgs and all processed
             || (stream.msgs_sent.end >= stream.msgs_to_send.end)) // or window size achieved
             && !stream.is_stream
         {
